@@ -38,6 +38,9 @@ impl Subject for VwmaSubj {
 	fn from_json(&self, s: &str) -> Result<Box<dyn Subject>, String> {
 		self.inner.from_json(s)
 	}
+	fn via_tokens(&self, positional: bool) -> Result<Box<dyn Subject>, String> {
+		self.inner.via_tokens(positional)
+	}
 }
 #[derive(Clone)]
 struct VwmaVV {
